@@ -346,6 +346,71 @@ def multitask(S, n, t, rank, glob, task, inter, bs):
         S.prove_eq(lm, ref_l if bs else np.array(ref_l[()], dtype=object).reshape(()), "log_marginal")
 
 
+def multitask_broadcast(S, n, t, rank, glob, task, inter, lbs, dbs):
+    """a multitask likelihood with its own batch shape on a distribution whose batch shape only BROADCASTS with it (smaller,
+    singleton or missing dimensions on either side): R = I (x) (D_t + s2 I) per likelihood batch element, added once"""
+    lbs, dbs = tuple(lbs), tuple(dbs)
+    obs = tuple(np.broadcast_shapes(lbs, dbs))
+    N = n * t
+    mean = S.randn(*dbs, n, t)
+    Ms = S.sym_tensor(mean, "m")
+    Gs, Gc = S.factor("g", N, dbs)
+    Cst = Gs @ np.swapaxes(Gs, -1, -2)
+    C = Gc @ Gc.transpose(-1, -2)
+    S.put(C, Cst)
+    y = S.randn(*dbs, n, t)
+    Ys = S.sym_tensor(y, "y")
+    lik = MultitaskGaussianLikelihood(num_tasks=t, rank=rank, has_global_noise=glob, has_task_noise=task, batch_shape=torch.Size(lbs))
+    declare_params(S, lik, "lik_")
+    with S.mode():
+        d = MultitaskMultivariateNormal(mean, C, interleaved=inter)
+        marg = S.must_not_raise("likelihood batch %s on distribution batch %s" % (list(lbs), list(dbs)), lambda: lik(d))
+        mc = marg.covariance_matrix
+        elp = S.must_not_raise("expected_log_prob, likelihood batch %s on distribution batch %s" % (list(lbs), list(dbs)), lambda: lik.expected_log_prob(y, d))
+        sig = as_sym_arr(SH.get(lik.noise)) if glob else None
+        if task and rank == 0:
+            tn = as_sym_arr(SH.get(lik.task_noises))
+            D = np.empty(lbs + (t, t), dtype=object)
+            for idx in np.ndindex(*D.shape):
+                D[idx] = tn[idx[:-2] + (idx[-1],)] if idx[-1] == idx[-2] else Sym.const(0.0)
+        elif task:
+            F = as_sym_arr(SH.get(lik.task_noise_covar_factor.data))
+            D = F @ np.swapaxes(F, -1, -2)
+        else:
+            D = np.empty(lbs + (t, t), dtype=object)
+            D[...] = Sym.const(0.0)
+    T = D.copy()
+    if glob:
+        for idx in np.ndindex(*lbs):
+            for a in range(t):
+                T[idx + (a, a)] = T[idx + (a, a)] + sig[idx + (0,)]
+    pos = lambda i, a: (i * t + a) if inter else (a * n + i)
+    Tb = np.broadcast_to(T, obs + (t, t))
+    Cb = np.broadcast_to(Cst, obs + (N, N))
+    Mb = np.broadcast_to(Ms, obs + (n, t))
+    Yb = np.broadcast_to(Ys, obs + (n, t))
+    R = np.empty(obs + (N, N), dtype=object)
+    for b in np.ndindex(*obs):
+        for i in range(n):
+            for a in range(t):
+                for j in range(n):
+                    for c in range(t):
+                        R[b + (pos(i, a), pos(j, c))] = Tb[b + (a, c)] if i == j else Sym.const(0.0)
+    S.check_concrete(tuple(mc.shape) == obs + (N, N), "marginal covariance has the broadcast batch shape", str(tuple(mc.shape)))
+    S.prove_eq(mc, Cb + R, "marginal.cov = C + I (x) (D_t + s2 I), likelihood batch %s, distribution batch %s" % (list(lbs), list(dbs)))
+    ref_e = np.empty(obs + (n,), dtype=object)
+    for b in np.ndindex(*obs):
+        for i in range(n):
+            te = Sym.const(0.0)
+            for a in range(t):
+                m_, y_ = Mb[b + (i, a)], Yb[b + (i, a)]
+                v_ = Cb[b + (pos(i, a), pos(i, a))]
+                r_ = Tb[b + (a, a)]
+                te = te + (((y_ - m_) * (y_ - m_) + v_) / r_ + sym_log(r_) + Sym.const(LOG2PI)) * Sym.const(-0.5)
+            ref_e[b + (i,)] = te
+    S.prove_eq(elp, ref_e, "expected_log_prob (per point, summed over tasks), broadcast batch")
+
+
 def likelihood_list(S, N1, N2):
     m1, M1, C1, CS1 = _dist(S, N1, (), "a")
     m2, M2, C2, CS2 = _dist(S, N2, (), "b")
@@ -386,7 +451,15 @@ def likelihood_list(S, N1, N2):
 
 
 def scenarios(tier, seed):
-    extra_ = [("hetero_indices", dict(N=2, T=2, index=1, bound=0)), ("hetero_indices", dict(N=2, T=3, index=0, bound=0.2))]
+    extra_ = [("hetero_indices", dict(N=2, T=2, index=1, bound=0)), ("hetero_indices", dict(N=2, T=3, index=0, bound=0.2)),
+              ("multitask_broadcast", dict(n=2, t=2, rank=0, glob=True, task=True, inter=True, lbs=[2], dbs=[])),
+              ("multitask_broadcast", dict(n=1, t=2, rank=1, glob=False, task=True, inter=False, lbs=[2, 1], dbs=[1, 2])),
+              ("multitask_broadcast", dict(n=2, t=2, rank=0, glob=True, task=False, inter=True, lbs=[2], dbs=[])),
+              ("multitask_broadcast", dict(n=1, t=2, rank=0, glob=False, task=True, inter=True, lbs=[], dbs=[2]))]
+    if tier != "quick":
+        extra_ += [("multitask_broadcast", dict(n=1, t=2, rank=0, glob=True, task=True, inter=False, lbs=[2, 1], dbs=[2])),
+                   ("multitask_broadcast", dict(n=2, t=2, rank=1, glob=True, task=True, inter=True, lbs=[2], dbs=[])),
+                   ("multitask_broadcast", dict(n=1, t=2, rank=1, glob=True, task=True, inter=True, lbs=[2], dbs=[3, 2]))]
     out = []
     def add(fn, **p):
         out.append({"sid": fn + ":" + ",".join("%s=%s" % kv for kv in sorted(p.items())), "fn": fn, "params": p})
